@@ -592,6 +592,80 @@ impl DecoderState {
     }
 }
 
+#[cfg(feature = "verif_hooks")]
+impl DecoderState {
+    /// Verification hook: feed every live field into `h`. Bytes of
+    /// `partial_input_buf` at or beyond its position are dead and left out.
+    pub(crate) fn verif_hash_state<H: std::hash::Hasher>(&self, h: &mut H) {
+        let pos = self.partial_input_buf.position() as usize;
+        h.write_usize(pos);
+        h.write(&self.partial_input_buf.get_ref()[..pos]);
+        h.write_u32(self.lzma_props.lc);
+        h.write_u32(self.lzma_props.lp);
+        h.write_u32(self.lzma_props.pb);
+        match self.unpacked_size {
+            None => h.write_u8(0),
+            Some(x) => {
+                h.write_u8(1);
+                h.write_u64(x)
+            }
+        }
+        self.literal_probs.verif_hash_state(h);
+        for t in self.pos_slot_decoder.iter() {
+            t.verif_hash_state(h);
+        }
+        self.align_decoder.verif_hash_state(h);
+        for arr in [
+            &self.pos_decoders[..],
+            &self.is_match[..],
+            &self.is_rep[..],
+            &self.is_rep_g0[..],
+            &self.is_rep_g1[..],
+            &self.is_rep_g2[..],
+            &self.is_rep_0long[..],
+        ] {
+            for p in arr.iter() {
+                h.write_u16(*p);
+            }
+        }
+        h.write_usize(self.state);
+        for r in self.rep.iter() {
+            h.write_usize(*r);
+        }
+        self.len_decoder.verif_hash_state(h);
+        self.rep_len_decoder.verif_hash_state(h);
+    }
+}
+
+#[cfg(feature = "verif_hooks")]
+impl DecoderState {
+    /// Verification hook: the dead bytes of `partial_input_buf` as well.
+    pub(crate) fn verif_hash_dead<H: std::hash::Hasher>(&self, h: &mut H) {
+        h.write(&self.partial_input_buf.get_ref()[..]);
+    }
+}
+
+#[cfg(feature = "verif_hooks")]
+impl LzmaDecoder {
+    /// Verification hook: feed the complete decoder state into `h`.
+    #[doc(hidden)]
+    pub fn verif_hash_state<H: std::hash::Hasher>(&self, h: &mut H) {
+        h.write_u32(self.params.properties.lc);
+        h.write_u32(self.params.properties.lp);
+        h.write_u32(self.params.properties.pb);
+        h.write_u32(self.params.dict_size);
+        match self.params.unpacked_size {
+            None => h.write_u8(0),
+            Some(x) => {
+                h.write_u8(1);
+                h.write_u64(x)
+            }
+        }
+        h.write_usize(self.memlimit);
+        self.state.verif_hash_state(h);
+    }
+}
+
 #[derive(Debug)]
 /// Raw decoder for LZMA.
 pub struct LzmaDecoder {
